@@ -136,7 +136,10 @@ IsCert(A, y) == LET w == VecMat(y, A) IN AllNonNeg(w) /\ ~IsZeroVec(w)
 HasCert(A, Y) == \E y \in [1..Len(A) -> (-Y)..Y] : IsCert(A, y)
 CertOf(A, Y) == CHOOSE y \in [1..Len(A) -> (-Y)..Y] : IsCert(A, y)
 \* the certificate search over the non-zero rows of the reduced matrix (same row space)
-HasCertOf(E, Y) == IF Len(E.piv) = 0 THEN FALSE ELSE HasCert(NonzeroRows(E), Y)
+\* ... attempted only when it visits at most 20 000 candidate vectors ((2Y+1)^rank)
+CertSearchSize(E, Y) == IPowCapped(2 * Y + 1, Len(E.piv), 1000000)
+HasCertOf(E, Y) == IF Len(E.piv) = 0 \/ CertSearchSize(E, Y) > 20000 THEN FALSE
+                   ELSE HasCert(NonzeroRows(E), Y)
 
 (* ---------------------------------------------------------------------------------------- *)
 (* Bounded search, independent of the elimination (for cross-checking on small models).      *)
